@@ -65,7 +65,7 @@ def run(prog: Program, rep: Report, tier: str) -> None:
     rep.rule("R11.1", "encoder normal form: hex(LE32(int(time.mktime(time.strptime(today ++ ' ' ++ HH ++ ':' ++ MM, DATEFMT ++ ' %H:%M'))))) where today = time.strftime(DATEFMT) (no time tuple: local today) with the SAME date directives on both sides", 3)
     rep.rule("R11.2", "decoder normal form: time.strftime('%H:%M', time.localtime(<unsigned LE32 of the 4 bytes>))", 1)
     rep.rule("R11.3", "agreement and clock domain: both sides 4 bytes little-endian, mktime/localtime (an inverse pair, both LOCAL), '%H:%M' on both sides, no UTC-domain API feeds either function", 3)
-    rep.rule("R11.5", "neither function is memoised: both depend on the host's current date / time zone, which a cache key does not contain", 2)
+    rep.rule("R11.5", "neither function is memoised: both depend on the host's current date / time zone, which a cache key does not contain", 2, structural=True)
     rep.rule("R2.6", "invalid strings raise: components bounded (no trailing ':x' accepted) and hour/minute reach a strptime with %H and %M with no handler around it", 2)
     rep.explanation = (
         "Decides the structural clauses only: the encoder's and decoder's normal forms, that they are a registered inverse pair in the same (local) clock domain, "
